@@ -271,7 +271,67 @@ func propC18(a *Analysis, r *Registry) {
 					Aux:    aux,
 				})
 			}
-			b.AnyOf(separate, merged)
+			// the word under examination carried by the loop ("pipelined"): w starts as the shifted
+			// starting word with base j; while w == 0 the next word is fetched — -1 once there is none
+			// — with base 32*k; the result is base + tz32(w) of the first non-zero w
+			pipelined := func() {
+				beyond := env.MustParse("len(m.marks)<=idiv(j,32)")
+				fc1 := X.Under(fn, X.AssumeCond(beyond, true))
+				b.EqUnder(rB, name+"/returns -1", b.pos(fn), fc1, fc1.RetVal(0), env, "-1")
+				fc := X.Under(fn, X.AssumeCond(beyond, false))
+				loops := fc.Ctx.Loops()
+				if len(loops) != 1 {
+					anchorFail("no single scan loop")
+				}
+				hdr := loops[0].Header
+				// the result returned after the loop
+				var after *ssa.Return
+				for _, rt := range fc.Ctx.Returns() {
+					if !loops[0].Body[rt.Block().Index] && fc.Ctx.Dominates(hdr, rt.Block()) {
+						for _, p := range fc.Ctx.LivePreds(rt.Block()) {
+							if p == hdr {
+								after = rt
+							}
+						}
+					}
+				}
+				if after == nil {
+					anchorFail("no result returned when the scan loop's condition fails")
+				}
+				rv := fc.Sub(fc.Val(after.Results[0]))
+				e := X.EnvFor(fn, "m", "i")
+				for _, nm := range []string{"j", "b0"} {
+					e.Vars[nm] = env.Vars[nm]
+				}
+				vars := b.LoopSystem(rB, name+"/word-scan", b.pos(fn), fc, rv, e, []recSpec{
+					{"w", "b0", "m.marks[k+1]"}, {"base", "j", "32*(k+1)"}, {"k", "idiv(j,32)", "k+1"}})
+				if vars == nil {
+					return
+				}
+				for k, v := range vars {
+					e.Set(k, v, nil)
+				}
+				b.Eq(rB, name+"/word-scan/result", a.W.InstrPos(after), rv, e, "base+tz32(w)")
+				_, gc, _, msg := b.loopGuard(fc, hdr)
+				if msg != "" {
+					r.Fail(rB, name+"/word-scan/while", b.pos(fn), msg)
+					return
+				}
+				b.Eq(rB, name+"/word-scan/while", b.pos(fn), gc, e, "w==0")
+				// every other way out of the loop returns -1, exactly when the words are exhausted
+				for _, ee := range fc.ExitEdges(hdr) {
+					if ee.From == hdr {
+						continue
+					}
+					rt, isRet := ee.To.Instrs[len(ee.To.Instrs)-1].(*ssa.Return)
+					if !isRet || len(ee.To.Instrs) != 1 || !fc.Val(rt.Results[0]).Equal(S.Int(-1)) {
+						r.Fail(rB, name+"/word-scan/exhausted", b.pos(fn), "a way out of the scan that does not return -1")
+						return
+					}
+					b.Eq(rB, name+"/word-scan/exhausted", a.W.InstrPos(rt), ee.Cond, e, "w==0 && len(m.marks)<=k+1")
+				}
+			}
+			b.AnyOf(separate, merged, pipelined)
 		})
 	}
 	b.CheckDFloor("D-floor", "graph/graphalg.(NodeMarks).Test", "graph/graphalg.(*NodeMarks).Mark", "graph/graphalg.(*NodeMarks).Unmark", "graph/graphalg.(*NodeMarks).grow", "graph/graphalg.(NodeMarks).Next")
